@@ -17,6 +17,10 @@ WITNESSES = [
     ["list", [["ndarray", "<f8", [2, 3], "F", 1, False], ["ref", 0], ["bytes", "6162"], ["bytes", "6162"], ["sparse", "csr", [3, 4], 1], ["bytearray", "0102"]]],
     ["dict", [[["str", "a"], ["dtype", "<f8"]], [["str", "b"], ["masked", ["ndarray", "<i8", [3], "C", 1, False], 2]], [["int", 3], ["randomstate", 1, 2]]]],
     ["objarray", [2, 2], [["int", 1], ["str", "s"], ["none"], ["float", "0x1.4p+1"]]],
+    # C13-F1 (repaired): a rank-0 object array was dumped with its cell's raw content where a list of states belongs; with members
+    # below the cell, and arrays with a zero-length axis (two empty lists / none)
+    ["objarray", [], [["list", [["bytes", "78"], ["ndarray", "<f8", [2], "C", 1, False]]]]],
+    ["list", [["objarray", [2, 0], []], ["objarray", [0, 2], []], ["objarray", [], [["sparse", "csr", [3, 4], 1]]]]],
     ["generator", "PCG64", 1, 1],
     ["int", 7],
     ["userobj", "Plain", [["a", ["ndarray", "<i4", [2], "C", 3, False]]]],
